@@ -6,7 +6,7 @@ import gen as G
 PROP = 'C17'
 THEOREMS = ['monotone_states', 'monotone_ranks', 'bijective_counts', 'coring_relabel', 'events_relabel',
             'paths_relabel']
-CONFIGS = [dict(jit=True), dict(jit=False)]
+CONFIGS = [dict(jit=True, threads=2), dict(jit=False)]
 RULE = ('random trajectory sets; each is passed as list of ints / list of lists / 1-d / 2-d array / list '
         'and tuple of arrays in every integer width the labels permit (uniform and MIXED widths) / '
         'constructed StateTraj, through function and method, and under a strictly increasing and an '
@@ -82,6 +82,20 @@ def gen(rng, tier):  # noqa: F811
             tgt = sorted(rng.sample(range(-60, 60), n))
         case['mono2'] = _mono_onto(present, tgt)
         yield case
+    for _ in range(G.budget(10) if tier == 'quick' else 200):
+        # 13..18 contiguous index-like states (narrow integer types keep their width down to the kernels)
+        k = rng.randint(13, 18)
+        base_ = rng.choice([0, 1])
+        labs = list(range(base_, base_ + k))
+        nt = rng.choice([1, 2])
+        trajs = [G.traj(rng, labs, rng.randint(150, 400), sticky=0.6) + labs for _t in range(nt)]
+        present = sorted({v for t in trajs for v in t})
+        perm = present[:]
+        rng.shuffle(perm)
+        fits = [w for w in WIDTHS if G.fits(trajs, w)]
+        yield {'trajs': trajs, 'lag': 1, 'S': [present[0]], 'F': [present[-1]], 'equal': False, 'mono': [rng.randint(1, 3), rng.randint(-5, 5)],
+               'bij': dict(zip(map(str, present), perm)), 'widths': fits, 'mixed': [rng.choice(fits) for _t in trajs],
+               'alpha': 'index-wide', 'light': True, 'mono2': _mono_onto(present, sorted(rng.sample(range(-40, 40), len(present))))}
     for _ in range(G.budget(16) if tier == 'quick' else 300):
         # several trajectories of ONE frame each (2-d shape (N, 1)) and short equal-length sets
         labs, akind = G.alphabet(rng, k=rng.randint(2, 3))
@@ -113,10 +127,18 @@ def impl(case):
     from implutil import DTYPES
     trajs, lag, S, F = case['trajs'], case['lag'], case['S'], case['F']
     W = ['emm', 'emm_method', 'its', 'ck', 'coring', 'wt', 'paths']
+    if case.get('light'):
+        W = ['emm', 'emm_method', 'coring', 'wt', 'paths']
     out = {'forms': {}}
 
+    # a second labeling of the same frames (12 classes by value) for the similarity measures
+    lab2 = [np.array([(int(v) * 7 + 3) % 12 for v in t], dtype=np.int64) for t in trajs]
+    two = len({int(v) for t in lab2 for v in t}) >= 2
+    if two:
+        W = W + ['sim']
+
     def run(tag, data):
-        out['forms'][tag] = battery(data, lag, S, F, which=W)
+        out['forms'][tag] = battery(data, lag, S, F, which=W, data2=lab2)
     run('base', [np.array(t, dtype=np.int64) for t in trajs])
     run('lol', [list(t) for t in trajs])
     run('toa', tuple(np.array(t, dtype=np.int64) for t in trajs))
@@ -143,10 +165,10 @@ def impl(case):
             out['lumped']['its_ref'] = 'err'
     a, b = case['mono']
     out['mono'] = battery([np.array([a * v + b for v in t]) for t in trajs], lag,
-                          [a * v + b for v in S], [a * v + b for v in F], which=W)
+                          [a * v + b for v in S], [a * v + b for v in F], which=W, data2=lab2)
     if case.get('mono2'):
         m2 = {int(k): v for k, v in case['mono2'].items()}
-        out['mono2'] = battery([np.array([m2[v] for v in t]) for t in trajs], lag, [m2[v] for v in S], [m2[v] for v in F], which=W)
+        out['mono2'] = battery([np.array([m2[v] for v in t]) for t in trajs], lag, [m2[v] for v in S], [m2[v] for v in F], which=W, data2=lab2)
     m = {int(k): v for k, v in case['bij'].items()}
     out['bij'] = battery([np.array([m[v] for v in t]) for t in trajs], lag, [m[v] for v in S], [m[v] for v in F],
                          which=['emm', 'coring', 'wt'])
@@ -154,7 +176,7 @@ def impl(case):
 
 
 def requests(case):
-    return [[101] + C.enested(case['trajs']) + [case['lag']]]
+    return [[C.emm_entry(case['trajs'])] + C.enested(case['trajs']) + [case['lag']]]
 
 
 def _mapk(x, f):
@@ -221,6 +243,8 @@ def _judge_mono(case, r, base, mono, f, finv, P, _close):
         if 'err' in mono['emm'] or mono['emm']['T'] != base['emm']['T'] or mono['emm']['st'] != [f(s) for s in base['emm']['st']]:
             P('impl-vs-spec', 'monotone relabelling changes T or does not relabel the states')
         for name in ('its', 'ck'):
+            if name not in base:
+                continue
             bb, mm = base[name], mono[name]
             if name == 'ck' and 'err' not in bb and 'err' not in mm:
                 mm = {k: dict(d, ck={str(finv(s)): c for s, c in d['ck'].items()}) for k, d in mm.items()}
@@ -230,6 +254,8 @@ def _judge_mono(case, r, base, mono, f, finv, P, _close):
             P('impl-vs-spec', 'cored trajectories are not relabelled accordingly')
         if mono['wt'] != base['wt']:
             P('impl-vs-spec', 'waiting times change under relabelling')
+        if 'sim' in base and not _close(base['sim'], mono.get('sim'), 1e-12):
+            P('impl-vs-spec', 'similarity changes under relabelling: %s vs %s' % (base['sim'], mono.get('sim')))
         if 'err' not in base['paths'] and mono['paths'].get('d') != sorted([[f(x) for x in k], vs] for k, vs in base['paths']['d']):
             P('impl-vs-spec', 'pathway keys are not relabelled accordingly')
 
